@@ -379,4 +379,156 @@ theorem C06_transcendental_model_constants :
     preproUn .tan = {} ∧ preproUn .sinh = {} ∧ preproUn .asinh = {} ∧ preproUn .atanh = {} ∧ preproUn .log = {} :=
   ⟨rfl, rfl, rfl, rfl, rfl, rfl, rfl, rfl, rfl, rfl, rfl, rfl, rfl⟩
 
+/-! ## min / max -/
+
+theorem smin_ne_nan {a b : ER} (ha : a ≠ nan) (hb : b ≠ nan) : smin a b ≠ nan := by
+  unfold smin; split <;> assumption
+theorem smax_ne_nan {a b : ER} (ha : a ≠ nan) (hb : b ≠ nan) : smax a b ≠ nan := by
+  unfold smax; split <;> assumption
+theorem smin_cases (a b : ER) : smin a b = a ∨ smin a b = b := by unfold smin; split <;> simp
+theorem smax_cases (a b : ER) : smax a b = a ∨ smax a b = b := by unfold smax; split <;> simp
+
+theorem smax_lb_left (a b : ER) (x : Rat) (ha : lbOK a x) (hb : lbW b x) : lbOK (smax a b) x := narrow_lb a b x ha hb
+theorem smin_ub_left (a b : ER) (x : Rat) (ha : ubOK a x) (hb : ubW b x) : ubOK (smin a b) x := narrow_ub a b x ha hb
+
+theorem foldl_smin (bs : List ER) (hbs : ∀ b ∈ bs, b ≠ nan) :
+    ∀ acc, acc ≠ nan →
+      bs.foldl smin acc ≠ nan ∧ (∀ x, lbOK acc x → lbOK (bs.foldl smin acc) x) ∧
+      (∀ b ∈ bs, ∀ x, lbOK b x → lbOK (bs.foldl smin acc) x) ∧ (bs.foldl smin acc = acc ∨ bs.foldl smin acc ∈ bs) := by
+  induction bs with
+  | nil => intro acc ha; exact ⟨ha, fun _ h => h, by simp, Or.inl rfl⟩
+  | cons b bs ih =>
+    intro acc ha
+    have hb : b ≠ nan := hbs b (by simp)
+    obtain ⟨h1, h2, h3, h4⟩ := ih (fun c hc => hbs c (by simp [hc])) (smin acc b) (smin_ne_nan ha hb)
+    simp only [List.foldl_cons]
+    refine ⟨h1, fun x hx => h2 x (smin_lb_left _ _ _ hx hb), ?_, ?_⟩
+    · intro c hc x hx
+      rcases List.mem_cons.mp hc with rfl | hc
+      · exact h2 x (smin_lb_right _ _ _ hx ha)
+      · exact h3 c hc x hx
+    · rcases h4 with h4 | h4
+      · rcases smin_cases acc b with h5 | h5
+        · left; rw [h4, h5]
+        · right; rw [h4, h5]; simp
+      · right; exact List.mem_cons_of_mem _ h4
+
+theorem foldl_smax (bs : List ER) (hbs : ∀ b ∈ bs, b ≠ nan) :
+    ∀ acc, acc ≠ nan →
+      bs.foldl smax acc ≠ nan ∧ (∀ x, ubOK acc x → ubOK (bs.foldl smax acc) x) ∧
+      (∀ b ∈ bs, ∀ x, ubOK b x → ubOK (bs.foldl smax acc) x) ∧ (bs.foldl smax acc = acc ∨ bs.foldl smax acc ∈ bs) := by
+  induction bs with
+  | nil => intro acc ha; exact ⟨ha, fun _ h => h, by simp, Or.inl rfl⟩
+  | cons b bs ih =>
+    intro acc ha
+    have hb : b ≠ nan := hbs b (by simp)
+    obtain ⟨h1, h2, h3, h4⟩ := ih (fun c hc => hbs c (by simp [hc])) (smax acc b) (smax_ne_nan ha hb)
+    simp only [List.foldl_cons]
+    refine ⟨h1, fun x hx => h2 x (smax_ub_left _ _ _ hx hb), ?_, ?_⟩
+    · intro c hc x hx
+      rcases List.mem_cons.mp hc with rfl | hc
+      · exact h2 x (smax_ub_right _ _ _ hx ha)
+      · exact h3 c hc x hx
+    · rcases h4 with h4 | h4
+      · rcases smax_cases acc b with h5 | h5
+        · left; rw [h4, h5]
+        · right; rw [h4, h5]; simp
+      · right; exact List.mem_cons_of_mem _ h4
+
+theorem listMin_mem_le : ∀ (l : List Rat), l ≠ [] → listMin l ∈ l ∧ ∀ y ∈ l, listMin l ≤ y
+  | [], h => absurd rfl h
+  | [a], _ => by simp [listMin]
+  | a :: b :: l, _ => by
+    obtain ⟨hm, hl⟩ := listMin_mem_le (b :: l) (by simp)
+    have hdef : listMin (a :: b :: l) = min a (listMin (b :: l)) := rfl
+    rw [hdef]
+    constructor
+    · rcases min_choice a (listMin (b :: l)) with h | h <;> rw [h]
+      · simp
+      · exact List.mem_cons_of_mem _ hm
+    · intro y hy
+      rcases List.mem_cons.mp hy with rfl | hy
+      · exact min_le_left _ _
+      · exact le_trans (min_le_right _ _) (hl y hy)
+
+theorem listMax_mem_le : ∀ (l : List Rat), l ≠ [] → listMax l ∈ l ∧ ∀ y ∈ l, y ≤ listMax l
+  | [], h => absurd rfl h
+  | [a], _ => by simp [listMax]
+  | a :: b :: l, _ => by
+    obtain ⟨hm, hl⟩ := listMax_mem_le (b :: l) (by simp)
+    have hdef : listMax (a :: b :: l) = max a (listMax (b :: l)) := rfl
+    rw [hdef]
+    constructor
+    · rcases max_choice a (listMax (b :: l)) with h | h <;> rw [h]
+      · simp
+      · exact List.mem_cons_of_mem _ hm
+    · intro y hy
+      rcases List.mem_cons.mp hy with rfl | hy
+      · exact le_max_left _ _
+      · exact le_trans (hl y hy) (le_max_right _ _)
+
+theorem ubOK_mono {b : ER} {x y : Rat} (h : ubOK b x) (hxy : y ≤ x) : ubOK b y := by
+  cases b <;> simp_all [ubOK]; linarith
+theorem lbOK_mono {b : ER} {x y : Rat} (h : lbOK b x) (hxy : x ≤ y) : lbOK b y := by
+  cases b <;> simp_all [lbOK]; linarith
+
+
+/-- **min**: `[min lbᵢ, min ubᵢ]` with the common type contains `min xᵢ` (non-empty argument list). -/
+theorem C06_min (e : Env) (val : Val) (h : Feasible e val) (as : List Nat) (hne : as ≠ []) :
+    ∃ pre, prepro e (.min as) = .keep pre (.min as) ∧ pre.Contains (Con.eval tr trp val (.min as)) := by
+  refine ⟨_, rfl, ?_⟩
+  have hne' : as.map val ≠ [] := by simpa using hne
+  obtain ⟨hmem, hle⟩ := listMin_mem_le (as.map val) hne'
+  obtain ⟨v0, hv0, hv0e⟩ := List.mem_map.mp hmem
+  have hlbs : ∀ b ∈ as.map (fun v => (e v).lb), b ≠ nan := by
+    intro b hb; obtain ⟨v, _, rfl⟩ := List.mem_map.mp hb; exact ne_nan_of_lbOK (h v).1
+  have hubs : ∀ b ∈ as.map (fun v => (e v).ub), b ≠ nan := by
+    intro b hb; obtain ⟨v, _, rfl⟩ := List.mem_map.mp hb; exact ne_nan_of_ubOK (h v).2.1
+  have e1 : lbArray e as = (as.map (fun v => (e v).lb)).foldl smin pinf := by simp [lbArray, List.foldl_map]
+  have e2 : ubMinArray e as = (as.map (fun v => (e v).ub)).foldl smin pinf := by simp [ubMinArray, List.foldl_map]
+  obtain ⟨_, _, l3, _⟩ := foldl_smin _ hlbs pinf (by simp)
+  obtain ⟨_, _, _, u4⟩ := foldl_smin _ hubs pinf (by simp)
+  simp only [Con.eval]
+  refine fresh_range_sound _ _ _ _ (Or.inr ?_) (Or.inr ?_) ?_
+  · rw [e1, ← hv0e]
+    exact l3 _ (List.mem_map.mpr ⟨v0, hv0, rfl⟩) _ (h v0).1
+  · rw [e2]
+    rcases u4 with u4 | u4
+    · rw [u4]; simp [ubOK]
+    · obtain ⟨v, hv, hvb⟩ := List.mem_map.mp u4
+      rw [← hvb]
+      exact ubOK_mono (h v).2.1 (hle _ (List.mem_map.mpr ⟨v, hv, rfl⟩))
+  · intro hi
+    rw [← hv0e]
+    exact isInt_of_commonType e val h as hi v0 hv0
+
+/-- **max**: `[max lbᵢ, max ubᵢ]` with the common type contains `max xᵢ` (non-empty argument list). -/
+theorem C06_max (e : Env) (val : Val) (h : Feasible e val) (as : List Nat) (hne : as ≠ []) :
+    ∃ pre, prepro e (.max as) = .keep pre (.max as) ∧ pre.Contains (Con.eval tr trp val (.max as)) := by
+  refine ⟨_, rfl, ?_⟩
+  have hne' : as.map val ≠ [] := by simpa using hne
+  obtain ⟨hmem, hle⟩ := listMax_mem_le (as.map val) hne'
+  obtain ⟨v0, hv0, hv0e⟩ := List.mem_map.mp hmem
+  have hlbs : ∀ b ∈ as.map (fun v => (e v).lb), b ≠ nan := by
+    intro b hb; obtain ⟨v, _, rfl⟩ := List.mem_map.mp hb; exact ne_nan_of_lbOK (h v).1
+  have hubs : ∀ b ∈ as.map (fun v => (e v).ub), b ≠ nan := by
+    intro b hb; obtain ⟨v, _, rfl⟩ := List.mem_map.mp hb; exact ne_nan_of_ubOK (h v).2.1
+  have e1 : lbMaxArray e as = (as.map (fun v => (e v).lb)).foldl smax ninf := by simp [lbMaxArray, List.foldl_map]
+  have e2 : ubArray e as = (as.map (fun v => (e v).ub)).foldl smax ninf := by simp [ubArray, List.foldl_map]
+  obtain ⟨_, _, u3, _⟩ := foldl_smax _ hubs ninf (by simp)
+  obtain ⟨_, _, _, l4⟩ := foldl_smax _ hlbs ninf (by simp)
+  simp only [Con.eval]
+  refine fresh_range_sound _ _ _ _ (Or.inr ?_) (Or.inr ?_) ?_
+  · rw [e1]
+    rcases l4 with l4 | l4
+    · rw [l4]; simp [lbOK]
+    · obtain ⟨v, hv, hvb⟩ := List.mem_map.mp l4
+      rw [← hvb]
+      exact lbOK_mono (h v).1 (hle _ (List.mem_map.mpr ⟨v, hv, rfl⟩))
+  · rw [e2, ← hv0e]
+    exact u3 _ (List.mem_map.mpr ⟨v0, hv0, rfl⟩) _ (h v0).2.1
+  · intro hi
+    rw [← hv0e]
+    exact isInt_of_commonType e val h as hi v0 hv0
+
 end MpVerif.C06
